@@ -23,8 +23,10 @@ VERIF = os.path.dirname(HERE)
 sys.path.insert(0, HERE)
 os.environ.setdefault("PYTHONHASHSEED", "0")
 warnings.filterwarnings("ignore")
+os.environ.setdefault("PYTHONWARNINGS", "ignore")
 
 import numpy as np  # noqa: E402
+np.seterr(all="ignore")
 try:
     from pymoo.config import Config
     Config.warnings["not_compiled"] = False
